@@ -4,7 +4,7 @@ ID = "C02"
 PROP = {
     "props_module": "FV.Props.C02",
     "builders": {"gen": V.build_gen},
-    "suites": [("gen", "c02", {"quick": 2400, "thorough": 40000})],
+    "suites": [("gen", "c02", {"quick": 2400, "thorough": 40000}), ("gen", "c02bytes", {"quick": 1600, "thorough": 24000})],
     "rule": "Random multi-file IDL programs (typedef chains, enums, structs/unions/exceptions, required/optional/default fields, nested list/set/map, includes) compiled by the real compiler; per program random values of random declared types: generated Write into a recording TProtocol (canonical wire tree vs the declared encoding), generated Read of conforming streams (fields/entries shuffled), streams with unknown fields injected, with a required field removed, unions with 0/2 fields, and round trips through the real binary, compact and JSON protocols. One case = one (program, type, value/stream).",
     "trusted": ["Modelled, not verified: Apache Thrift's binary/compact/JSON byte layouts and SkipDefaultDepth (exercised by the `p` ops), Go reflection in the runner, the Go compiler"],
     "level_text": "Theorems over the model of the emitted Go Read/Write code (FV.Model.Thrift: encV/decV over the stream of TProtocol calls), for ALL definitions tables and ALL values within the depth budget: the field headers written are exactly the declared ones (ids, wire types through typedef resolution, required/default always, optional iff set, union exactly one), reading what was written reproduces the value, unknown fields are skipped, a missing required field and a union with 0 or >=2 fields are rejected. The model is tied to the emitted code on every run by compiling random IDL with the real compiler, building the emitted Go and comparing its behaviour with the model case by case.",
